@@ -16,6 +16,11 @@
             which the braced length is a const generic parameter of the enclosing fn (all ignored by
             the model), 5 / 6 the type-level length written as an alias named `N` / `T` (ignored by the model); 3 generated program whose repeat operand is a path to a `const` item of
             the (non-Copy) element type: the operand is a ConstPath, nothing is logged for it
+            10 box_arr![x; N] inside a fn generic over N (ignored by the model);
+            8 every element is `unsafe { f(i) }` for an unsafe fn f and the program denies unused_unsafe
+            (ignored by the model: accepted like the native literal); 9 every element is `f(i)` for an
+            unsafe fn f with NO unsafe block: rejected like the native literal whenever an element
+            expression is written at all (a harness-level rule: the term model has no notion of unsafe)
    element i is an expression that appends i to the log and yields 3 + 7*i.
    obs: Done -> 0 kind(0 GenericArray,1 Box) N::USIZE len values... loglen log...
         (log entry: tag of an evaluated expression, or -1-v for a clone of value v)
@@ -72,6 +77,8 @@ Definition run_c20 (case : list Z) : list Z :=
     let x := if via =? 3 then ConstPath (val_of etype 0) else User 0 (val_of etype 0) isc in
     let lst := InList (elems etype (znat count) isc) (znat trailing) in
     let go m i := enc_res etype (run crate_decls w cx m i) in
+    let listform := (form =? 0) || (form =? 1) || (form =? 6) || (form =? 11) in
+    if (via =? 9) && negb (listform && (count =? 0)) then [1] else
     if (form =? 0) || (form =? 1) then go MArr lst
     else if (form =? 2) || (form =? 4) then go MArr (InSemi x (TyLen count))
     else if (form =? 3) || (form =? 5) || (form =? 12) then go MArr (InSemi x (User 1 count true))
